@@ -32,17 +32,22 @@ class CountingClock:
 
 
 class Alg:
-    def __init__(self, key, kind, fn, op=None, param=None, kwargs=None, req_extra=None, pre=None):
+    def __init__(self, key, kind, fn, op=None, param=None, kwargs=None, req_extra=None, pre=None, needs_contents=False,
+                 relation=None, direct=None):
         self.key, self.kind, self.fn = key, kind, fn
         self.op = op or key
         self.param = param or ("k" if kind == "partition" else "B")
         self.kwargs = kwargs or (lambda p: {})
         self.req_extra = req_extra or (lambda p: "")
         self.pre = pre            # hook run before every implementation call (e.g. install a clock)
+        self.needs_contents = needs_contents   # the model distinguishes the sums-only from the contents manager
+        self.relation = relation   # relation(case, fmt, outtype, impl_answer, raw_model_answer, by_id) when not strict
+        self.direct = direct       # direct(p) -> True: call the algorithm with a binner, not through the adaptor
 
-    def request(self, case):
+    def request(self, case, ids=None, contents=True):
         p = case["p"]
-        return f"{self.op} {self.param}={p[self.param]} items={f_items(case['vals'])}{self.req_extra(p)}"
+        c = f" contents={int(contents)}" if self.needs_contents else ""
+        return f"{self.op} {self.param}={p[self.param]}{c} items={f_items(case['vals'], ids)}{self.req_extra(p)}"
 
     def call_impl(self, case, fmt, outtype, names):
         p = case["p"]
@@ -54,7 +59,17 @@ class Alg:
         try:
             if self.pre:
                 self.pre(p)
-            if self.kind == "partition":
+            if self.direct and self.direct(p):
+                # what prtpy.partition does, minus its crash on a `None` result (anytime algorithm, no solution yet)
+                if isinstance(items, dict):
+                    vo = kw.pop("valueof", None) or items.__getitem__
+                    item_names = items.keys()
+                else:
+                    vo = kw.pop("valueof", None) or (lambda item: item)
+                    item_names = items
+                bins = self.fn()(ot.create_binner(vo), p["k"], item_names, **kw)
+                r = None if bins is None else ot.extract_output_from_binsarray(bins)
+            elif self.kind == "partition":
                 r = prtpy.partition(algorithm=self.fn(), numbins=p["k"], items=items, outputtype=ot, **kw)
             else:
                 r = prtpy.pack(algorithm=self.fn(), binsize=p["B"], items=items, outputtype=ot, **kw)
@@ -89,3 +104,62 @@ reg(Alg("bfd", "pack", lambda: _bf().decreasing))
 reg(Alg("cover_decreasing", "cover", lambda: prtpy.covering.decreasing))
 reg(Alg("twothirds", "cover", lambda: prtpy.covering.twothirds))
 reg(Alg("threequarters", "cover", lambda: prtpy.covering.threequarters))
+
+
+# ---- exact / anytime partitioners
+def _cut(p):
+    c = p.get("cut")
+    return "inf" if c is None else str(c)
+
+
+def _install_clock(modname):
+    def pre(p):
+        import time as real_time
+        mod(modname).time = CountingClock() if p.get("cut") is not None else real_time
+    return pre
+
+
+reg(Alg("kk", "partition", lambda: prt.kk))
+reg(Alg("ckk", "partition", lambda: prt.ckk, needs_contents=True))
+reg(Alg("snp", "partition", lambda: prt.snp, needs_contents=True))
+reg(Alg("rnp", "partition", lambda: prt.rnp, needs_contents=True))
+reg(Alg("cg", "partition", lambda: prt.cg,
+        kwargs=lambda p: {"objective": objective_impl(p["obj"]), "use_lower_bound": bool(p["lb"]),
+                          "use_fast_lower_bound": bool(p["fast"]), "use_heuristic_3": bool(p["h3"]),
+                          "use_set_of_seen_states": bool(p["seen"]),
+                          "time_limit": float("inf") if p.get("cut") is None else p["cut"]},
+        req_extra=lambda p: f" obj={p['obj']} lb={p['lb']} fast={p['fast']} h3={p['h3']} seen={p['seen']} cut={_cut(p)}",
+        pre=_install_clock("prtpy.partitioning.complete_greedy"), direct=lambda p: p.get("cut") is not None))
+def obj_value(name, sums):
+    """objective value of a sum vector, computed independently of prtpy (used only by non-strict relations)"""
+    s = sorted(sums)
+    if name == "maxmin":
+        return -s[0]
+    if name == "minmax":
+        return s[-1]
+    if name == "diff":
+        return s[-1] - s[0]
+    kind, k = name.split(":")
+    k = int(k)
+    return -sum(s[:k]) if kind == "ksmall" else sum(s[-k:])
+
+
+def dp_relation(case, fmt, ot, got, model_ans, by_id):
+    """DP: which optimal record is returned depends on CPython's set order (DESIGN §3): the relation is
+    'the returned sums attain the model's optimum'; validity is judged separately by the verified checker."""
+    if "error" in model_ans or not isinstance(got, (dict, list)) or (isinstance(got, dict) and "error" in got):
+        return got == model_ans
+    sums = got["sums"] if isinstance(got, dict) else got
+    if ot not in ("Sums", "SortedSums", "PartitionAndSumsTuple", "PartitionAndSums"):
+        return True
+    return obj_value(case["p"]["obj"], sums) == model_ans["value"]
+
+
+reg(Alg("dp", "partition", lambda: prt.dp,
+        kwargs=lambda p: {"objective": objective_impl(p["obj"])}, req_extra=lambda p: f" obj={p['obj']}",
+        relation=dp_relation))
+reg(Alg("cbldm", "partition", lambda: prt.cbldm, op="cbldm", param="k",
+        kwargs=lambda p: {**({} if p.get("cut") is None else {"time_limit": p["cut"]}),
+                          **({} if p.get("d") is None else {"partition_difference": p["d"]})},
+        req_extra=lambda p: f" d={'inf' if p.get('d') is None else p['d']} cut={_cut(p)}",
+        pre=_install_clock("prtpy.partitioning.cbldm")))
